@@ -93,7 +93,13 @@ def elaborate (p : Program) (rs : ResultShards) : Dag × Nat :=
       | .lines n _ =>
         let (d, a) := push d ⟨"reader", n, [], false, false, none, none⟩
         push d ⟨"map", n, single a, false, false, none, none⟩
-      | .map s _ pr => push d ⟨"map", sh s, single (rf s), false, pr == .mat, none, none⟩
+      | .map s f pr =>
+        if f.startsWith "p" || f.startsWith "q" then
+          -- Map(Prefixed(s, 2 or 1), f): the wrapper is a slice of its own (see reshuffle2)
+          let inner := d.get (rf s)
+          let (d, w) := push d inner
+          push d ⟨"map", inner.numShard, single w, false, pr == .mat, none, none⟩
+        else push d ⟨"map", sh s, single (rf s), false, pr == .mat, none, none⟩
       | .count s _ => push d ⟨"map", sh s, single (rf s), false, false, none, none⟩
       | .filter s _ => push d ⟨"filter", sh s, single (rf s), false, false, none, none⟩
       | .flatmap s _ => push d ⟨"flatmap", sh s, single (rf s), false, false, none, none⟩
